@@ -736,7 +736,7 @@ func ruleContentType(c *chk.Ctx) {
 // only for err == io.EOF ∧ len(bits) != 0.
 func ruleReaderAcceptsDataEOF(c *chk.Ctx) {
 	for _, s := range chanSites(c, "Recv") {
-		if ir.RecvNamed(s.fn) != c.M.Server {
+		if !(len(s.owners) == 1 && s.owners["server"] && !s.other) {
 			continue
 		}
 		f := s.fn
@@ -764,17 +764,22 @@ func ruleReaderAcceptsDataEOF(c *chk.Ctx) {
 					}
 					continue
 				}
-				if bo, ok := cd.V.(*ssa.BinOp); ok {
-					if g := globalLoad(bo.Y); g != nil && g.Name() == "EOF" && bo.Op == token.EQL && cd.Truth {
+				if x, y, op, ok := ir.Rel(cd); ok {
+					g := globalLoad(y)
+					if g == nil {
+						g = globalLoad(x)
+					}
+					if g != nil && g.Name() == "EOF" && op == token.EQL {
 						ks = append(ks, "err==EOF")
 						continue
 					}
-					if _, isLen := ir.LenOf(bo.X); isLen && cd.Truth && bo.Op == token.NEQ {
-						ks = append(ks, "len!=0")
-						continue
-					}
+				}
+				if _, ok := ir.NonEmptyLen(cd); ok {
+					ks = append(ks, "len!=0")
+					continue
 				}
 			}
+			ks = dedupStrings(ks)
 			sort.Strings(ks)
 			kinds = append(kinds, strings.Join(ks, "∧"))
 		}
@@ -855,4 +860,17 @@ func ruleDataWithReaderError(c *chk.Ctx) {
 		}
 		return
 	}
+}
+
+
+func dedupStrings(in []string) []string {
+	seen := map[string]bool{}
+	var out []string
+	for _, s := range in {
+		if !seen[s] {
+			seen[s] = true
+			out = append(out, s)
+		}
+	}
+	return out
 }
